@@ -113,19 +113,34 @@ def reset_globals():
 # ---------------------------------------------------------------- scratch
 
 _scratch_base = None
+_scratch_pid = None
 _scratch_n = 0
 
 
 def scratch_base():
-    global _scratch_base
+    global _scratch_base, _scratch_pid
+    if _scratch_pid != os.getpid():
+        _scratch_base = None          # forked worker: own directory
+        _scratch_pid = os.getpid()
     if _scratch_base is None or not os.path.isdir(_scratch_base):
-        _scratch_base = os.path.join(
-            SCRATCH_ROOT, 'zodb-verif-%d' % os.getpid())
+        run = os.environ.get('ZODB_VERIF_RUNDIR')
+        if not run or not os.path.isdir(run):
+            # top-level process of a run: owns the run directory
+            run = os.path.join(SCRATCH_ROOT, 'zodb-verif-%d' % os.getpid())
+            shutil.rmtree(run, ignore_errors=True)
+            os.makedirs(run)
+            os.environ['ZODB_VERIF_RUNDIR'] = run
+            import atexit
+            atexit.register(_cleanup_run, run, os.getpid())
+        _scratch_base = os.path.join(run, 'p%d' % os.getpid())
         shutil.rmtree(_scratch_base, ignore_errors=True)
         os.makedirs(_scratch_base)
-        import atexit
-        atexit.register(shutil.rmtree, _scratch_base, True)
     return _scratch_base
+
+
+def _cleanup_run(run, pid):
+    if os.getpid() == pid:
+        shutil.rmtree(run, ignore_errors=True)
 
 
 def new_dir(tag='d'):
